@@ -26,9 +26,9 @@ CONFIGS_THOROUGH = [('gnu++17', ()), ('gnu++11', ())]   # -DHAS_STRPTIME=0 does 
 PRESERVING = {
     'RF1': ('C13', 'C14', 'C15', 'C19', 'C20'),             # impl / lookup: loader, cache, UTC singleton
     'RF2': ('C01', 'C11', 'C12', 'C14', 'C19'),             # Load, Header, Decode*, GetTransitionType, EquivTransitions
-    'RF3': ('C01', 'C10', 'C11', 'C12', 'C14'),             # ExtendTransitions, BreakTime, MakeTime, TimeLocal, Next/PrevTransition
+    'RF3': ('C01', 'C02', 'C06', 'C10', 'C11', 'C12', 'C14'),             # ExtendTransitions, BreakTime, MakeTime, TimeLocal, Next/PrevTransition
     'RF4': ('C12', 'C15', 'C16', 'C20'),                    # posix and fixed-offset parsers
-    'RF5': ('C08',),                                        # format()
+    'RF5': ('C08', 'C18'),                                        # format()
     'RF6': ('C04', 'C09', 'C12', 'C16', 'C17'),             # parse() and civil_time_detail.h
 }
 
